@@ -14,6 +14,14 @@ Lemma view_heap s sd h : view (with_heap s sd h) sd = view s sd.
 Proof. destruct sd; reflexivity. Qed.
 Lemma so_read_fst sd o c s :
   fst (so_read cfg sd o c s) =
+    if negb (cacheVals cfg) then
+      if i_obsolete (get_inst s sd o) then Raise EAssertion
+      else if dead s sd then Raise EAssertion
+           else match tbl_lookup (view s sd) (i_id (get_inst s sd o)) with
+                | Some r => Ret (nth c r None)
+                | None => Raise EAssertion
+                end
+    else
     match nth c (i_vals (get_inst s sd o)) None with
     | Some v => Ret v
     | None => if dead s sd then Raise EAssertion
@@ -24,6 +32,9 @@ Lemma so_read_fst sd o c s :
     end.
 Proof.
   unfold so_read, bind, gets. cbv beta iota.
+  destruct (negb (cacheVals cfg)).
+  { destruct (i_obsolete (get_inst s sd o)); [reflexivity|]. unfold stmt_read. destruct (dead s sd); [reflexivity|].
+    cbv beta iota. destruct (tbl_lookup (view s sd) (i_id (get_inst s sd o))); reflexivity. }
   destruct (nth c (i_vals (get_inst s sd o)) None) as [v|] eqn:E; [reflexivity|].
   unfold upd_inst, modify, db_select_one, bind, stmt_read. cbv beta iota.
   rewrite dead_heap. destruct (dead s sd); [reflexivity|].
@@ -31,29 +42,14 @@ Proof.
   destruct (tbl_lookup (view s sd) (i_id (get_inst s sd o))) as [r|]; [|reflexivity].
   unfold select_init, upd_inst, modify, ret. reflexivity.
 Qed.
+Definition lift_val (r : res val) : res outv := match r with Ret v => Ret (RVal v) | Raise e => Raise e end.
 Lemma read_spec s h sd o c :
   nth h (slots s) None = Some (sd, o) ->
-  fst (step cfg s (ORead h c)) =
-    match nth c (i_vals (get_inst s sd o)) None with
-    | Some v => Ret (RVal v)
-    | None => if dead s sd then Raise EAssertion
-              else match tbl_lookup (view s sd) (i_id (get_inst s sd o)) with
-                   | Some r => Ret (RVal (nth c (reloaded cfg (get_inst s sd o) r) None))
-                   | None => Raise ENotFound
-                   end
-    end.
+  fst (step cfg s (ORead h c)) = lift_val (fst (so_read cfg sd o c (with_log s []))).
 Proof.
-  intros H. unfold step. cbn [run_op]. unfold handle, bind, gets. cbv beta iota. cbn [slots with_log].
-  rewrite H. unfold ret at 1. cbv beta iota. cbn [fst snd].
-  pose proof (so_read_fst sd o c (with_log s [])) as F.
-  destruct (so_read cfg sd o c (with_log s [])) as [[v|e] s1]; cbn [fst] in *; 
-  change (get_inst (with_log s []) sd o) with (get_inst s sd o) in F;
-  change (dead (with_log s []) sd) with (dead s sd) in F;
-  change (view (with_log s []) sd) with (view s sd) in F.
-  - destruct (nth c (i_vals (get_inst s sd o)) None); [inversion F; reflexivity|].
-    destruct (dead s sd); [discriminate|]. destruct (tbl_lookup (view s sd) (i_id (get_inst s sd o))); inversion F; reflexivity.
-  - destruct (nth c (i_vals (get_inst s sd o)) None); [discriminate|].
-    destruct (dead s sd); [inversion F; reflexivity|]. destruct (tbl_lookup (view s sd) (i_id (get_inst s sd o))); inversion F; reflexivity.
+  intros H. unfold step. cbn [run_op]. unfold handle, bind, gets, ret. cbv beta iota. cbn [slots with_log].
+  rewrite H. cbv beta iota. cbn [fst snd].
+  destruct (so_read cfg sd o c (with_log s [])) as [[v|e] s1]; reflexivity.
 Qed.
 
 Lemma count_spec s sd :
@@ -81,7 +77,9 @@ Proof.
   - (* read of an attribute that is not cached *)
     destruct (nth h (slots s) None) as [[sd x]|] eqn:E; [|discriminate]. inversion Hs; subst.
     pose proof (read_spec s h Txn x c E) as R. unfold step in R. cbn [run_op] in R. rewrite R.
-    destruct (nth c (i_vals (get_inst s Txn x)) None); [discriminate|]. cbn [dead]. rewrite Ht. reflexivity.
+    rewrite so_read_fst. change (get_inst (with_log s []) Txn x) with (get_inst s Txn x). cbn [dead tobs with_log]. rewrite Ht.
+    destruct (negb (cacheVals cfg)); [destruct (i_obsolete (get_inst s Txn x)); reflexivity|]. cbn [orb] in Hn.
+    destruct (nth c (i_vals (get_inst s Txn x)) None); [discriminate|]. reflexivity.
   - (* assignment *)
     destruct (lazy cfg) eqn:Elz; [discriminate|].
     destruct (nth h (slots s) None) as [[sd x]|] eqn:E; [|discriminate]. inversion Hs; subst.
